@@ -257,6 +257,36 @@ def c15(res):
                       "independent numeric executor")
 
 
+def c13(res):
+    wd = workdir("C13")
+    q = res.tier == "quick"
+    res.models.append(model_check("Import", "Import_quick.cfg" if q else "Import_thorough.cfg", wd, workers=8, timeout=6000))
+    hists = os.path.join(wd, "hists.out")
+    res.gens.append(generate("Import", "ImportGen_quick.cfg" if q else "ImportGen_thorough.cfg", wd, hists, workers=4, timeout=3000))
+    res.models.append(model_check("Import", "ImportShare_quick.cfg", wd, workers=8, timeout=6000))
+    sim = os.path.join(wd, "hists_sim.out")
+    res.gens.append(generate("Import", "ImportSim.cfg", wd, sim, workers=1,
+                             extra=["-simulate", "num=%d" % (100 if q else 2000), "-depth", "7", "-seed", str(res.seed)]))
+    share = os.path.join(wd, "hists_share.out")
+    res.gens.append(generate("Import", "ImportGenShare_quick.cfg" if q else "ImportGenShare_thorough.cfg", wd, share, workers=4, timeout=3000))
+    with open(hists, "a") as f:
+        f.write(open(sim).read())
+        f.write(open(share).read())
+    trace = os.path.join(wd, "trace.ndjson")
+    if not run_recorder(res, "ctxrec", ["c13", hists, res.tier, trace], wd, timeout=3000):
+        return res.finish("recorder crashed")
+    n, rej = validate("Trace_C13", trace, wd, timeout=3000)
+    res.validated = n - len(rej)
+    res.evaluations = n
+    res.samples = sample_lines(trace, maxlen=3000)
+    res.add_rejects(trace, rej, lambda r, f: "ev=%s hist=%s fails=%s" % (r.get("ev"), json.dumps(r.get("hist"))[:120], "+".join(sorted(f))))
+    res.assumptions = ["integer matrices and integer points: expected values are exact; float matrices are judged against an f64 composition"]
+    return res.finish("every builder sequence of the Import.tla bound (two registers: leaves, self-multiplication, remap_affine with four integer "
+                      "matrices, 42 remap_xyz forms, clone into a second owner, combination) plus simulated sequences of length 6, replayed "
+                      "through Tree / Context::import and evaluated at integer points; chains of float affine remaps with second owners; "
+                      "a case = one tree")
+
+
 def c14(res):
     wd = workdir("C14")
     q = res.tier == "quick"
@@ -354,7 +384,7 @@ def c11(res):
                       "Function and Shape APIs; a case = one call")
 
 
-CHECKS = {"C01": c01, "C03": c03, "C05": c05, "C06": c06, "C07": c07, "C09": c09, "C11": c11, "C02": c02, "C04": c04, "C10": c10, "C14": c14, "C15": c15, "C20": c20}
+CHECKS = {"C01": c01, "C03": c03, "C05": c05, "C06": c06, "C07": c07, "C09": c09, "C11": c11, "C13": c13, "C02": c02, "C04": c04, "C10": c10, "C14": c14, "C15": c15, "C20": c20}
 
 
 def replay(prop, path):
